@@ -261,6 +261,10 @@ class Assignment(Atom):
             )
             return frozenset(singularity_list)
 
+        # With float literals the singular points are found numerically
+        # (1.4999999999999998 instead of 1.5) and the limit is taken beside the point
+        expr = sp.nsimplify(self.expr, rational=True)
+
         for dep in self.value.dependencies:
             try:
                 var = lookup[dep]
@@ -270,7 +274,7 @@ class Assignment(Atom):
             if not var.is_stateful(lookup):
                 continue
 
-            values = singularities(self.expr, var.symbol)
+            values = singularities(expr, var.symbol)
 
             if not values:
                 continue
@@ -283,7 +287,7 @@ class Assignment(Atom):
                     Singularity(
                         symbol=var.symbol,
                         value=value,
-                        replacement=limit(self.expr, var.symbol, value),
+                        replacement=limit(expr, var.symbol, value),
                     )
                 )
         return frozenset(singularity_list)
